@@ -6,7 +6,8 @@ set -u
 cd "$(dirname "$0")/.."
 export GOFLAGS=-mod=mod GOPROXY=off GOSUMDB=off GOTOOLCHAIN=local
 cov=$(mktemp -d /tmp/verif-cov-XXXXXX)
-trap 'rm -rf "$cov"; git checkout -- evidence 2>/dev/null' EXIT
+export VERIF_EVIDENCE_DIR=$cov/evidence
+trap 'rm -rf "$cov"' EXIT
 props=${*:-C03 C16 C17 C18 C19}
 for p in $props; do
   VERIF_COVER=1 GOCOVERDIR=$cov/data ./check $p quick > $cov/$p.log 2>&1 & pid=$!
